@@ -82,10 +82,10 @@ func (s *c19Subject) eval(k int) string {
 		// evaluation must not modify the variable values either
 		for i, b := range s.c.Vars[k] {
 			if got := fromVariant(vc.Get(i).Value()); !equalVal(got, b.V) {
-				return out + fmt.Sprintf(" !! variable %s changed from %s to %s", b.Name, b.V, got)
+				return "modified: " + out + fmt.Sprintf(" ; variable %s changed from %s to %s", b.Name, b.V, got)
 			}
 		}
-		return out
+		return "ok: " + out
 	}
 	m := map[string]string{}
 	for key, v := range s.c.Maps[k] {
@@ -93,14 +93,14 @@ func (s *c19Subject) eval(k int) string {
 	}
 	out, err := s.tmpl.EvaluateWithVariables(m)
 	if len(m) != len(s.c.Maps[k]) {
-		return out + " !! variable map changed size"
+		return fmt.Sprintf("modified: %q ; variable map changed size", out)
 	}
 	for key, v := range s.c.Maps[k] {
 		if m[key] != v {
-			return out + " !! variable map changed"
+			return fmt.Sprintf("modified: %q ; variable map changed", out)
 		}
 	}
-	return fmt.Sprintf("%q %s", out, errRepr(err))
+	return fmt.Sprintf("ok: %q %s", out, errRepr(err))
 }
 
 func (s *c19Subject) snapshot() string {
@@ -160,7 +160,7 @@ func checkC19(c c19Case) *evid.Fail {
 		for i, k := range c.Order {
 			k = k % s.k()
 			got := s.eval(k)
-			if strings.Contains(got, " !! ") {
+			if strings.HasPrefix(got, "modified: ") { // the prefix is the harness's own; generated text only follows it
 				res = evid.F("impure:variables-modified", "%s %q, evaluation %d with collection %d: %s", c.Kind, c.Text, i, k, got)
 				return
 			}
